@@ -68,7 +68,7 @@ pub fn audit_source(src: &str, curve: &str, field: &Field, case: &Value) -> Audi
         // Replay of a route-B case.
         let root = crate::infra::work_dir("c06-replay");
         let name = if src.contains("template T(") { "T" } else { "f" };
-        let out = match pipe::lift_via_runner(src, &root, name, name == "f", case["main"].as_bool().unwrap_or(false)) {
+        let out = match pipe::lift_via_runner_curve(src, &root, name, name == "f", case["main"].as_bool().unwrap_or(false), pipe::curve_of(curve)) {
             Ok(cfg) => audit_cfg(&cfg, field, src, case, "/runner"),
             Err(_) => Audit { violations: Vec::new(), lifted: false, claims: 0, runs: 0, discarded: 0 },
         };
@@ -305,26 +305,31 @@ pub fn run(run: &Run) {
     // Route B: the same audit on the CFG the real runner builds from a file (BN254), for a slice
     // of the operator table and the control-flow programs of <= 2 statements.
     {
-        let (curve, p) = real_primes().into_iter().next().unwrap();
-        let field = Field::new(&p);
-        let alphabet = literal_alphabet(&field);
-        let cases = table_cases(alphabet.len(), run.tier);
-        let slice: Vec<&TableCase> = cases.iter().step_by(5).collect();
         let root = crate::infra::work_dir("c06");
-        par_each(&slice, |_, tc| {
-            let src = table_source(tc, &alphabet);
-            let mut case = table_case_json(tc, curve);
-            case["route"] = json!("runner");
-            run.watch(&case);
-            let dir = root.join(format!("{:?}", std::thread::current().id()).replace(|c: char| !c.is_ascii_alphanumeric(), ""));
-            run.eval(1);
-            let is_template = src.contains("template T(");
-            if let Ok(cfg) = pipe::lift_via_runner(&src, &dir, if is_template { "T" } else { "f" }, !is_template, false) {
-                let audit = audit_cfg(&cfg, &field, &src, &case, "/runner");
-                run.add_extra_count("value_claims_compared_via_runner", audit.claims);
-                run.violations(audit.violations);
-            }
-        });
+        // The table slice under every curve: the curve the runner was built with must be the
+        // one its CFGs compute with.
+        for (curve, p) in real_primes() {
+            let field = Field::new(&p);
+            let alphabet = literal_alphabet(&field);
+            let cases = table_cases(alphabet.len(), run.tier);
+            let slice: Vec<&TableCase> = cases.iter().step_by(if curve == "BN254" { 5 } else { 11 }).collect();
+            par_each(&slice, |_, tc| {
+                let src = table_source(tc, &alphabet);
+                let mut case = table_case_json(tc, curve);
+                case["route"] = json!("runner");
+                run.watch(&case);
+                let dir = root.join(format!("{:?}", std::thread::current().id()).replace(|c: char| !c.is_ascii_alphanumeric(), ""));
+                run.eval(1);
+                let is_template = src.contains("template T(");
+                if let Ok(cfg) = pipe::lift_via_runner_curve(&src, &dir, if is_template { "T" } else { "f" }, !is_template, false, pipe::curve_of(curve)) {
+                    let audit = audit_cfg(&cfg, &field, &src, &case, "/runner");
+                    run.add_extra_count("value_claims_compared_via_runner", audit.claims);
+                    run.violations(audit.violations);
+                }
+            });
+        }
+        let (_, p) = real_primes().into_iter().next().unwrap();
+        let field = Field::new(&p);
         let small = enumerate(cf_opts(2));
         par_each(&small, |i, skel| {
             let na: usize = skel.iter().map(|s| s.atoms()).sum();
